@@ -4,7 +4,10 @@ SPECIFICATION Spec
 CONSTANTS
     KeyOrder <- MC_KeyOrder
     IdOrder <- MC_IdOrder
-    TreeSet <- MC_TreeSet
+    NModes <- MC_NModes
+    Seeds <- MC_Seeds
+    Rights <- MC_Rights
+    Extend <- MC_Extend
     Which = "sites_quick"
     GrowLeaves <- MC_GrowLeaves
     MaxGrow = 0
